@@ -125,6 +125,24 @@ def run(tier):
                 ops.append(grp)
         c = common.Case("c10t-%d" % ti, ["HOOK trace 1"], [o for g in ops for o in g], {"table": t, "groups": [len(g) for g in ops]})
         togg.append(c)
+    # typeform NULL versus all-zero where the library's own type buffer matters: a `correct` rule lengthens the text, the
+    # capacity ends inside the lengthened text, and an earlier call has left type information behind the caller's characters
+    # (F36; seeded change C10-E cleared the tail only when a typeform was passed)
+    for li in range(3 if tier == "quick" else 30):
+        lt = ("space \\s 0\n" + "".join("lowercase %s %s\n" % (ch, d) for ch, d in zip("abcdefghix", "1 12 14 145 15 124 1245 125 24 1346".split()))
+              + "noback correct \"x\" \"xabcdefghi\"\nalways fgh 123456\nalways cd 2356\n")
+        ln = "c10len%d.ctb" % li
+        pol = [rng.choice(b"abcdefghi") for _ in range(40)]
+        groups = [["FWD %s 0 200 - 1 %s %s -" % (ln, common.wide(pol), common.wide([rng.choice([0x1000, 0x0800])] * 40))]]
+        for _g in range(4):
+            u = [rng.choice(b"xxab") for _ in range(rng.randint(1, 3))]
+            cap = rng.choice([15, 12, 10, 9, 22, rng.randint(5, 25)])
+            grp = []
+            for am in (0, 1, 4):
+                grp.append("FWD %s %d %d - %d %s %s -" % (ln, rng.choice([0]), cap, am, common.wide(u), common.wide([0] * len(u)) if am & 1 else "-"))
+            groups.append(grp)
+        togg.append(common.Case("c10t-len%d" % li, ["HOOK trace 1", "TBL %s %s" % (ln, common.hexbytes(lt))], [o for g in groups for o in g],
+                                {"table": ln, "groups": [len(g) for g in groups]}))
     for ti, t in enumerate(tables):
         ops = []
         for _ in range(n):
